@@ -47,7 +47,17 @@ func CheckRecursion(rootTypeName string, rootSchema *schema.Schema) error {
 		rootTypes: rootSchema.TypesList(),
 	}
 
-	return rc.check(rootSchema.RootNode(), rootSchema.TypesList())
+	for {
+		// A failed walk is remembered for one pass only: the type on the path
+		// it has failed of may be walked with success later. So the schema is
+		// walked again while a pass finds new types which are walked with success.
+		succeeded := len(rc.clean) + len(rc.walked)
+		rc.failed = map[*schema.Schema]*schema.MixedValueNode{}
+		err := rc.check(rootSchema.RootNode(), rootSchema.TypesList())
+		if err == nil || len(rc.clean)+len(rc.walked) == succeeded {
+			return err
+		}
+	}
 }
 
 type recursionChecker struct {
@@ -82,6 +92,21 @@ type recursionChecker struct {
 	// passed a set of types which were walked with success during the walk of
 	// the current type. Types of a dropped alternative aren't there.
 	passed map[string]struct{}
+
+	// failed the types whose walk has failed during the pass, each with the
+	// reference it has failed of. The walk of such a type fails again, with the
+	// error of the first alternative of this reference, until this alternative
+	// is walked with success, so there is no need to walk it again until then.
+	failed map[*schema.Schema]*schema.MixedValueNode
+
+	// lastFailed the last reference all alternatives of which lead to
+	// a recursion.
+	lastFailed *schema.MixedValueNode
+
+	// unknown a number of recursions found at a reference to a type the table
+	// doesn't hold. Such a reference is passed when the type isn't on the path,
+	// so a walk which has met such a recursion isn't remembered as failed.
+	unknown int
 
 	// ref the reference being followed: the error of a recursion points at the
 	// one which closes the cycle.
@@ -217,6 +242,7 @@ func (c *recursionChecker) checkMixedValueNode(
 	}
 
 	if len(errs) > 0 && len(errs) == len(tt) {
+		c.lastFailed = node
 		// Just return first found error.
 		return errs[0]
 	}
@@ -229,6 +255,9 @@ func (c *recursionChecker) checkType(typeName string, types map[string]schema.Ty
 		err = c.createError()
 		// The type which closes the cycle is on the path for the error only.
 		c.path = c.path[:len(c.path)-1]
+		if t := types[typeName]; t.Schema() == nil {
+			c.unknown++
+		}
 		return err
 	}
 	defer c.leave(typeName)
@@ -273,13 +302,24 @@ func (c *recursionChecker) checkType(typeName string, types map[string]schema.Ty
 		return nil
 	}
 
+	if node, ok := c.failed[t.Schema()]; ok {
+		c.ref = node
+		if err := c.checkType(node.GetTypes()[0], t.Schema().TypesList()); err != nil {
+			return err
+		}
+	}
+
 	dropped := c.dropped
+	unknown := c.unknown
 	err = c.check(t.Schema().RootNode(), t.Schema().TypesList())
 	if err == nil && dropped == c.dropped {
 		c.clean[t.Schema()] = struct{}{}
 	}
 	if err == nil && dropped != c.dropped {
 		c.walked[t.Schema()] = c.passed
+	}
+	if err != nil && unknown == c.unknown {
+		c.failed[t.Schema()] = c.lastFailed
 	}
 	return err
 }
